@@ -1,10 +1,30 @@
-"""C21 — DT-ProbLog and MAP return optimal strategies (bounded stand-in: bounded/c21.py; the search procedures
-search_exhaustive / evaluate / num2bits are additionally put under deductive contract where the verifier reaches)."""
+"""C21 — DT-ProbLog and MAP return optimal strategies.
+
+Proof part: num2bits (the enumeration of strategies in search_exhaustive) is proved to return, for every n and nbits,
+the nbits-bit binary representation of n mod 2^nbits, most significant bit first - so that the loop over
+range(0, 1 << len(decisions)) visits every strategy exactly once (two different numbers below 2^nbits differ in a bit).
+Bounded part (bounded/c21.py): dtproblog(search=exhaustive|local) and the map task against brute-force expected
+utility.  search_exhaustive / search_local / evaluate work on dictionaries keyed by terms and on the evaluator: outside
+the verifier's subset.
+"""
 from pyvc.dsl import *
 
 S = Spec("C21", "DT-ProbLog and MAP return optimal strategies")
 LEVEL = "exploration"
-S.unverified("everything: bounded run-time contract only")
+# shr(n, j) = n with its j lowest binary digits removed (floor(n / 2^j)); digit j of n is shr(n, j) % 2
+S.recfun("shr", [("n", "Int"), ("j", "Int")], "Int", "n if j <= 0 else shr(n, j - 1) // 2")
+
+S.fn("problog.tasks.dtproblog:num2bits", types={"n": "Int", "nbits": "Int"}, returns="List[Bool]",
+     requires=["n >= 0", "nbits >= 0"],
+     loops={0: loop(index="k",
+                    invariant=["len(bits) == nbits", "n == shr(old(n), k)",
+                               "forall(lambda j: implies(0 <= j < k, bits[nbits - 1 - j] == (shr(old(n), j) % 2 == 1)))"])},
+     ensures=["len(result) == nbits",
+              # most significant bit first: position nbits-1-j holds binary digit j of n
+              "forall(lambda j: implies(0 <= j < nbits, result[nbits - 1 - j] == (shr(old(n), j) % 2 == 1)))"])
+
+S.unverified("search_exhaustive, search_local, evaluate, dtproblog, the map task: dictionaries keyed by Term objects, "
+             "zip/dict construction and the evaluator are outside the verifier's subset - bounded stand-in (bounded/c21.py)")
 
 
 def bounded(tier, seed):
